@@ -192,9 +192,57 @@ CaseResult run_closed_exit_handle(Tape &t)
   return res;
 }
 
+// Somebody else collected the child (the caller ignores SIGCHLD, or its own waitpid(-1) loop was quicker): the
+// library's waitpid fails with ECHILD. It cannot know the status then - and must not make one up.
+CaseResult run_foreign_reaper(Tape &t)
+{
+  CaseResult res;
+  vs_init();
+  vs_reset();
+  vt::World w;
+  w.install();
+  reproc_options opt;
+  memset(&opt, 0, sizeof(opt));
+  opt.redirect.discard = true;
+  opt.stop = { { REPROC_STOP_KILL, 5000 }, { REPROC_STOP_NOOP, 0 }, { REPROC_STOP_NOOP, 0 } };
+  vt::VChild ch;
+  std::string err = vt::start_puppet(w, fw::case_dir() + "/ctl", opt, ch);
+  int code = 1 + (int) t.pick(255);
+  bool by_signal = t.chance(1, 3);
+  int sig = kTermSignals[t.pick(23)];
+  int form = (int) t.pick(3);  // wait(INFINITE), wait(0), stop({wait, 100})
+  res.describe = J().kv("scenario", "the child is collected by someone else: the library's waitpid fails with ECHILD").kv("ending", by_signal ? "signal " + std::to_string(sig) : "exit(" + std::to_string(code) + ")").kv("call", form == 0 ? "wait(INFINITE)" : form == 1 ? "wait(0)" : "stop(wait/100)").str();
+  res.cls("child-collected-by-someone-else");
+  res.nontrivial = true;
+  res.hash = mix(0xec41d, (uint64_t) code * 8 + (uint64_t) form * 2 + by_signal);
+  if (!err.empty() || ch.start_result <= 0) {
+    w.uninstall();
+    res.inconclusive("start: " + err);
+    if (ch.p) reproc_destroy(ch.p);
+    return res;
+  }
+  w.schedule(ch.t_start + 100, ch.kid, by_signal ? vt::A_RAISE : vt::A_EXIT, (uint32_t) (by_signal ? sig : code), 0);
+  w.advance_to(ch.t_start + 200);
+  reproc_stop_actions sa = { { REPROC_STOP_WAIT, 100 }, { REPROC_STOP_NOOP, 0 }, { REPROC_STOP_NOOP, 0 } };
+  for (int round = 0; round < 2 && res.kind == CaseResult::PASS; round++) {
+    if (round == 0) vs_fail_nth_err(VS_WAITPID, 0, ECHILD);
+    w.call_begins(100000);
+    int r = form == 0 ? reproc_wait(ch.p, REPROC_INFINITE) : form == 1 ? reproc_wait(ch.p, 0) : reproc_stop(ch.p, sa);
+    vs_fail_nth(-1, -1);
+    if (r >= 0) res.fail("status-invented", std::string(round == 0 ? "" : "a later call: ") + "waitpid failed with ECHILD (the child, which ended with " + std::to_string(by_signal ? 128 + sig : code) + ", was collected by someone else) but the library returned status " + std::to_string(r));
+  }
+  if (!w.trouble.empty()) {
+    res.kind = CaseResult::INCONCLUSIVE;
+    res.msg = "harness: " + w.trouble;
+  }
+  w.uninstall();
+  reproc_destroy(ch.p);
+  return res;
+}
+
 CaseResult run_case(Tape &t, long sweep)
 {
-  if (sweep < 0 && t.chance(1, 12)) return run_closed_exit_handle(t);
+  if (sweep < 0 && t.chance(1, 12)) return t.chance(1, 4) ? run_foreign_reaper(t) : run_closed_exit_handle(t);
   CaseResult res;
   Case c = decode(t, sweep);
   vs_init();
